@@ -85,7 +85,7 @@ def run(rep):
     need = ["Read", "ReadNOp", "Read1N", "Read1All", "ReadInto", "Read0", "Stream", "ChunkedOp", "Iter", "Preload",
             "Dispose", "NextRequest"]
     plans = [("repaired design, intact responses",
-              dict(sc="ScC12", maxops=4, _cov=True, _need=need) if quick else
+              dict(sc="ScC12", maxops=4, _workers=max(2, bc.JOBS // 2)) if quick else
               dict(sc="ScC12", maxops=6, after=2, amts="AFull", amts1="A1237", gen="A1237", into="A37", _cov=True, _need=need), None),
              ("deviation D6 exhibited", dict(sc="ScC12Tiny", kd="JustD6"), bc.DEFECT_CLAUSES["JustD6"]),
              ("deviation D7 exhibited", dict(sc="ScC12Tiny", kd="JustD7"), bc.DEFECT_CLAUSES["JustD7"]),
@@ -119,6 +119,9 @@ def run(rep):
         rep.stage1.append({"run": "emission " + sc, "distinct_states": r2.distinct, "states_generated": r2.generated,
                            "depth": r2.depth, "wall_s": round(r2.wall, 1), "behaviours_emitted": nlines,
                            "op_sequences": len(groups) - 1})
+        # vacuity: every API call occurs in the emitted behaviours (the thorough tier also reads TLC's -coverage back)
+        rep.extra["api_calls_in_emitted_sequences"] = bc.api_coverage(
+            groups, ["read", "readn", "read1n", "read1", "readinto", "read0", "stream", "chunked", "iter", "data"])
         variants = [{"scale": 1, "seg": None, "pseed": 1}] if quick else \
             [{"scale": 1, "seg": None, "pseed": 1}, {"scale": 1, "seg": 1, "pseed": 2, "ext": True},
              {"scale": 3000, "seg": 4096, "pseed": 3}]
